@@ -27,7 +27,7 @@ fn chain(sel: u8) -> ([u64; 3], usize) {
     }
 }
 
-fn hdr_tree_body(sel: u8) {
+fn hdr_tree_body(sel: u8, all_known: bool) {
     let mut win: [u8; WIN] = kani::any();
     // 1-byte id, 1- or 2-byte size field: keeps the header arithmetic small; the general
     // header shapes are decided on `Flat` (hdr_flat_*)
@@ -43,7 +43,9 @@ fn hdr_tree_body(sel: u8) {
 
     // open masters: symbolic sizes (known/unknown) and extents consistent with Inv_stack:
     // starts strictly increasing and before the cursor, known ranges nested, cursor before every known end
-    let unknown: [bool; 3] = kani::any();
+    // all_known: every open master has a known size (then no master can be closed by the element
+    // and the validator works on vectors of concrete length - an order of magnitude cheaper)
+    let unknown: [bool; 3] = if all_known { [false; 3] } else { kani::any() };
     let ds: [usize; 3] = kani::any(); // data_start offsets relative to `base - 60`
     let sz: [usize; 3] = kani::any();
     let org = base - 60;
@@ -99,8 +101,8 @@ fn hdr_tree_body(sel: u8) {
         let numeric = matches!(ty, Some(TagDataType::UnsignedInt) | Some(TagDataType::Integer) | Some(TagDataType::Float));
         let numeric_bad = numeric && !matches!(size, RefSize::Known(s) if s <= 8);
         kani::cover!(f_hier && !f_id && !f_over && !f_limit, "pure hierarchy fault reached");
-        kani::cover!(f_over && !f_hier && !f_id && !f_limit, "pure oversize fault reached");
-        kani::cover!(keep < n && path_ok, "element accepted after closing unknown-size masters reached");
+        kani::cover!(n == 0 || (f_over && !f_hier && !f_id && !f_limit), "pure oversize fault reached");
+        kani::cover!(all_known || n == 0 || (keep < n && path_ok), "element accepted after closing unknown-size masters reached");
         kani::cover!(!f_id && !f_hier && !f_over && !f_limit && !numeric_bad && ty.is_some(), "accepted element reached");
         match &r {
             Ok((rid, rty, rsize, rhl)) => {
@@ -132,12 +134,15 @@ fn hdr_tree_body(sel: u8) {
 
 macro_rules! tree_h {
     ($name:ident, $sel:literal) => {
+        tree_h!($name, $sel, false);
+    };
+    ($name:ident, $sel:literal, $known:literal) => {
         #[kani::proof]
         #[kani::unwind(10)]
         #[kani::stub(<core::io::CustomOwner as core::ops::Drop>::drop, stubs::noop_custom_owner_drop)]
         #[kani::stub(std::hash::RandomState::new, stubs::fixed_random_state)]
         fn $name() {
-            hdr_tree_body($sel)
+            hdr_tree_body($sel, $known)
         }
     };
 }
@@ -147,27 +152,28 @@ tree_h!(hdr_tree_chain_root_a, 2);
 tree_h!(hdr_tree_chain_root_a_b, 3);
 tree_h!(hdr_tree_chain_root_a2, 4);
 tree_h!(hdr_tree_chain_root2, 5);
+tree_h!(hdr_tree_known_root, 1, true);
+tree_h!(hdr_tree_known_root_a, 2, true);
+tree_h!(hdr_tree_known_root_a_b, 3, true);
+tree_h!(hdr_tree_known_root_a2, 4, true);
 
 /// Mid-document start: the first non-global element fixes the position; its declared
-/// ancestors become open masters that will receive an End (never a Start).
-#[kani::proof]
-#[kani::unwind(10)]
-#[kani::stub(<core::io::CustomOwner as core::ops::Drop>::drop, stubs::noop_custom_owner_drop)]
-#[kani::stub(std::hash::RandomState::new, stubs::fixed_random_state)]
-fn hdr_tree_first_element() {
+/// ancestors become open masters that will receive an End (never a Start). The id is
+/// enumerated (one harness per element of `Tree`) so that the declared path is a
+/// constant; the size byte and everything behind it are symbolic.
+fn first_element<const ID: u64>() {
     let mut win: [u8; WIN] = kani::any();
-    kani::assume(win[CUR] >= 0x80 && win[CUR + 1] >= 0x80);
+    win[CUR] = ID as u8;
+    kani::assume(win[CUR + 1] >= 0x80);
     let base: usize = kani::any();
     kani::assume(base < (1usize << 40));
     let src: &[u8] = &[];
     let mut it: TagIterator<&[u8], TreeTag> = TagIterator::with_capacity(src, &[], 0);
     it.verif_set_buffer(Box::new(win), WIN, CUR, Some(base));
-    let id = win[CUR] as u64;
+    let id = ID;
     let r = it.verif_peek_valid_tag_header();
-    let ty = Tree::ty(id);
-    kani::cover!(id == tree::L3 && r.is_ok(), "depth-3 leaf as first element reached");
-    kani::cover!(id == tree::VOID && r.is_ok(), "global as first element reached");
-    if r.is_ok() && ty.is_some() {
+    kani::cover!(r.is_ok(), "accepted first element reached");
+    if r.is_ok() {
         if tree_global(id) {
             assert!(!it.verif_doc_path_determined() && it.verif_stack().is_empty(), "C06: a global element does not fix the position in the document");
         } else {
@@ -189,3 +195,21 @@ fn hdr_tree_first_element() {
     core::mem::forget(r);
     core::mem::forget(it);
 }
+
+macro_rules! first_h {
+    ($name:ident, $id:expr) => {
+        #[kani::proof]
+        #[kani::unwind(10)]
+        #[kani::stub(<core::io::CustomOwner as core::ops::Drop>::drop, stubs::noop_custom_owner_drop)]
+        #[kani::stub(std::hash::RandomState::new, stubs::fixed_random_state)]
+        fn $name() {
+            first_element::<{ $id }>()
+        }
+    };
+}
+first_h!(hdr_tree_first_l3, tree::L3);
+first_h!(hdr_tree_first_l2, tree::L2);
+first_h!(hdr_tree_first_b, tree::B);
+first_h!(hdr_tree_first_a2, tree::A2);
+first_h!(hdr_tree_first_root, tree::ROOT);
+first_h!(hdr_tree_first_void, tree::VOID);
